@@ -29,6 +29,7 @@ const (
 	DecChoose         // V = class index, Excl = class indexes excluded
 	DecValue          // V = concrete value, Excl = values excluded
 	DecSched          // V = thread chosen
+	DecPick           // V = index chosen among equally enabled alternatives (ready select cases)
 )
 
 type Decision struct {
